@@ -12,7 +12,7 @@ import logging
 import contextlib
 
 from pybufrkit.errors import PyBufrKitError
-from pybufrkit.coder import Coder, CoderState, BSRModifier
+from pybufrkit.coder import Coder, CoderState, BSRModifier, BITMAP_INDICATOR
 from pybufrkit.tables import TableGroupKey, TableGroupCacheManager
 from pybufrkit.descriptors import Descriptor
 
@@ -245,8 +245,13 @@ class TemplateCompiler(Coder):
 
     def process_bitmap_definition(self, state, bit_operator, descriptor):
         n_031031 = state.n_031031
+        is_indicator = state.bitmap_definition_state == BITMAP_INDICATOR
         super(TemplateCompiler, self).process_bitmap_definition(state, bit_operator, descriptor)
-        if state.n_031031 == 0:
+        if is_indicator and state.n_031031 == 1:
+            # first bit of a directly listed bitmap: the count restarts at one
+            state.add_statement(State031031Reset())
+            state.add_statement(State031031Increment())
+        elif state.n_031031 == 0:
             state.add_statement(State031031Reset())
         elif state.n_031031 == n_031031 + 1:
             state.add_statement(State031031Increment())
